@@ -1247,6 +1247,10 @@ class Interp:
                     return
                 except ReturnSignal:
                     return
+                except PyExc as e:
+                    if e.cls_name == "StopIteration":          # PEP 479: a StopIteration escaping a generator body becomes a RuntimeError
+                        raise PyExc("RuntimeError", ("generator raised StopIteration",)) from None
+                    raise
             finally:
                 self.func_stack.pop()
             thrown = None
